@@ -313,7 +313,13 @@ class AppCfgMgr:
                             _LOGGER.debug('Found cleanup file %r', path)
                             break
                     else:
-                        if self._configure(appname):
+                        # NOTE: the cache entry may have been replaced since
+                        #       it was listed: only this container being the
+                        #       running one now means it was added again.
+                        if (self._configure(appname) and
+                                self._linked_container(
+                                    self.tm_env.running_dir,
+                                    appname) == container):
                             needs_cleanup = False
                             _LOGGER.debug('Added existing app %r', appname)
 
